@@ -12,11 +12,16 @@ _BUILTINS = set(dir(builtins)) | {"__file__", "__name__", "__doc__", "__builtins
                                   "__path__", "__debug__", "__annotations__", "__class__", "__dict__", "__module__", "__qualname__"}
 
 
+def _src(text: str) -> bytes:
+    """source as the interpreter reads it from a file: bytes (a UTF-8 byte order mark is legal at the very start only)"""
+    return text.encode("utf-8", "surrogateescape")
+
+
 def parses(text: str) -> bool:
     with warnings.catch_warnings():
         warnings.simplefilter("ignore")
         try:
-            ast.parse(text)
+            ast.parse(_src(text))
             return True
         except (SyntaxError, ValueError):
             return False
@@ -26,7 +31,7 @@ def compiles(text: str) -> bool:
     with warnings.catch_warnings():
         warnings.simplefilter("ignore")
         try:
-            compile(text, "<program>", "exec", dont_inherit=True)
+            compile(_src(text), "<program>", "exec", dont_inherit=True)
             return True
         except (SyntaxError, ValueError):
             return False
@@ -38,11 +43,11 @@ def unresolved(text: str) -> set[str] | None:
     with warnings.catch_warnings():
         warnings.simplefilter("ignore")
         try:
-            top = symtable.symtable(text, "<program>", "exec")
+            top = symtable.symtable(text.lstrip("\ufeff") if text.count("\ufeff") == 1 and text.startswith("\ufeff") else text, "<program>", "exec")
         except (SyntaxError, ValueError):
             return None
     try:
-        tree = ast.parse(text)
+        tree = ast.parse(_src(text))
     except (SyntaxError, ValueError):
         return None
     for node in ast.walk(tree):
